@@ -661,6 +661,7 @@ def run(ctx):
     bases = list(base_models(nmax, menu))
     items = [(f, par, js) for par, js in bases for f, _ in FAMILIES]
     R.rpmap(ctx, _item, items, init=_init, label=lambda it: "%s %s %s" % it)
+    ctx.extra["violation_keys"] = sorted(v[0] for v in ctx.violations)
     ctx.extra["base_models"] = len(bases)
     ctx.extra["families"] = [f for f, _ in FAMILIES]
     ctx.rule = ("base models = all forests <= %d bodies x joint menu %s (not all-welded); each x every rewriting family: %d orientation "
